@@ -94,10 +94,11 @@ def gen_case(rng):
     return {"kind": kind, "shapes": shapes, "explicit": explicit}
 
 
-def run_impl(case):
+def run_impl(case, fail=None):
     """returns (outcome, result commands or None, recorder)"""
     T = impl()
     rec = skia_trace.Recorder()
+    rec.fail = fail
     kind = case["kind"]
 
     def go():
@@ -163,6 +164,31 @@ def correspondence(ctx):
             ctx._results.append((c, v, rec))
             if len(c["shapes"]) > 1:
                 nontrivial += 1
+    # fault injection: a Skia failure in any binary operation or in the final simplify must surface as
+    # PathOpsError (theorem ok_means_all_ok / op_error_propagates), never as a path
+    inj = 0
+    lines, plan = [], []
+    for c, v, rec in list(ctx._results)[: (400 if ctx.thorough() else 120)]:
+        nops = sum(1 for e in rec.events if e["kind"] == "op")
+        nsimp = sum(1 for e in rec.events if e["kind"] == "simplify")
+        choices = [("op", k) for k in range(nops)] + ([("simplify", nsimp - 1)] if nsimp else [])
+        if not choices:
+            continue
+        f = ctx.rng.choice(choices)
+        if c["kind"] == "remove_overlaps":
+            lines.append("pathops\tremove_overlaps_fail\t" + c["shapes"][0]["fill_rule"])
+        else:
+            base = model_line(c).split("\t")
+            lines.append("\t".join(["pathops", "wrap_fail"] + base[2:] + ["simplify" if f[0] == "simplify" else "op", str(f[1] if f[0] == "op" else 0)]))
+        plan.append((c, f))
+    fouts = ctx.model(lines)
+    for (c, f), m in zip(plan, fouts):
+        o, v, rec2 = run_impl(c, fail=f)
+        inj += 1
+        ctx.count("injected:" + o)
+        if o != m:
+            dis.append({"what": "%s with a Skia failure injected at %s: implementation outcome %s, model %s" % (c["kind"], f, o if o != "ok" else "returned a path", m),
+                        "kind": "inject", "input": {"case": c, "fail": list(f)}})
     ctx.samples.append({"case": cases[0]["kind"], "operands": [s["d"][:60] for s in cases[0]["shapes"]], "model_expression": outs[0]})
     ctx.stats["corr_cases"] = n
     ctx.stats["evaluations"] = ctx.stats.get("evaluations", 0) + n
@@ -231,6 +257,13 @@ def search(ctx, disagreements):
         if why:
             found.append({"kind": "set-law", "input": c, "detail": why})
     # errors must propagate: a PathOpsError inside is never turned into a path
+    for d in disagreements:
+        if d.get("kind") == "inject":
+            c, f = d["input"]["case"], tuple(d["input"]["fail"])
+            o, v, _ = run_impl(c, fail=f)
+            if o == "ok":
+                found.append({"kind": "error-law", "input": d["input"],
+                              "detail": "%s: with Skia failing at %s (PathOpsError) the wrapper returned a path (%d commands) instead of raising" % (c["kind"], f, len(v))})
     ctx.stats["evaluations"] = ctx.stats.get("evaluations", 0) + len(results)
     return found
 
@@ -246,4 +279,8 @@ def replay(ctx, payload):
         import random
         why = judge_case(random.Random(1), c, v, npts=400) if o == "ok" else "raised " + o
         return {"fails": bool(why), "detail": why}
+    if payload.get("kind") == "error-law":
+        c, f = payload["input"]["case"], tuple(payload["input"]["fail"])
+        o, v, _ = run_impl(c, fail=f)
+        return {"fails": o == "ok", "outcome": o}
     return {"fails": bool(ctx.tie_breaks), "no_longer_checks": ctx.tie_breaks}
